@@ -1,0 +1,26 @@
+// Copyright ©2026 The Gonum Authors. All rights reserved.
+// Use of this source code is governed by a BSD-style
+// license that can be found in the LICENSE file.
+
+//go:build !verif
+
+// Package verifhook provides instrumentation points used by external
+// model-based conformance checks. Without the verif build tag every
+// function is an inlinable no-op.
+package verifhook
+
+// Enabled reports whether the hooks are compiled in.
+const Enabled = false
+
+// Actor returns an identifier for the calling goroutine's role.
+func Actor(kind string) string { return "" }
+
+// Emit records an event of the given actor.
+func Emit(actor, ev string, a, b, c int64) {}
+
+// Ptr returns a stable integer identity for a pointer-like value.
+func Ptr(p any) int64 { return 0 }
+
+// Ilaenv allows the block-size parameters returned by lapack's
+// Ilaenv to be overridden.
+func Ilaenv(ispec int, name, opts string, n1, n2, n3, n4 int) (int, bool) { return 0, false }
